@@ -68,3 +68,6 @@ Fixpoint same_name_same_logger (obs : list (Z * Z)) : bool :=
 (* the declarative reading of the same: for any two look-ups, equal names <-> same Logger *)
 Definition reg_consistent (obs : list (Z * Z)) : Prop :=
   ForallOrdPairs (fun a p : Z * Z => fst p = fst a <-> snd p = snd a) obs.
+
+(* options applied through the registry reach every logger a caller was given *)
+Definition all_reached (r : list bool) : Prop := Forall (fun b => b = true) r.
